@@ -57,6 +57,37 @@ def scenario(e, cfg, built=None):
             bad = [i for i, t in enumerate(got) if t != one_pass[i % N]]
             e.prove(not bad, f"{iface}/{cfg['layout']} shuffled=False: stream {got} is not the one-pass sequence {one_pass} repeated "
                              f"(first difference at {bad[:1]})", dict(kind=f"{iface}-not-periodic"))
+        if iface == "tfdataset" and not shuffled and getattr(mon, "tf_dataset", None) is not None \
+                and mon.tf_dataset.source == "from_generator":
+            # the SAME returned tf.data.Dataset object iterated again (next epoch of model.fit, or a second loop): tf calls the
+            # generator function anew; the new stream is again the one-pass sequence repeated, from its beginning
+            import sedpack.io.dataset_iteration as DI
+            import sedpack.io.itertools.itertools as IT
+            restore = iterscen.patch_randomness(e, IT)
+            patches = dict(IterateShardFlatBuffer=iterscen.make_decoder(table, iterscen.Monitor()), ThreadPoolExecutor=iterscen.StubExecutor,
+                           LazyPool=iterscen.make_lazy_pool(e))
+            old = {n: getattr(DI, n) for n in patches}
+            for n, v in patches.items():
+                setattr(DI, n, v)
+            second = []
+            try:
+                g2 = mon.tf_dataset.run_generator()
+                for tok in g2:
+                    second.append(tok)
+                    if len(second) >= min(int(k), N + 1):
+                        break
+            except CexFound:
+                raise
+            except Exception as exc:  # noqa: BLE001
+                second = f"raised {type(exc).__name__}: {str(exc)[:60]}"
+            finally:
+                for n, v in old.items():
+                    setattr(DI, n, v)
+                restore()
+            want2 = [one_pass[i % N] for i in range(min(int(k), N + 1))]
+            e.prove(second == want2, f"tfdataset/{cfg['layout']}: iterating the SAME returned dataset object again after {len(got)} elements "
+                                     f"yields {second} instead of the one-pass sequence repeated from its beginning {want2}",
+                    dict(kind="tfdataset-second-iteration-not-periodic"))
         if iface == "rust":
             for start in range(0, len(got) - N + 1, N):
                 block = got[start:start + N]
@@ -73,6 +104,56 @@ def scenario(e, cfg, built=None):
     finally:
         if own:
             ctx.__exit__(None, None, None)
+
+
+def two_streams(e, cfg, built):
+    """Two repeating streams alive at the same time in one process (training and validation), pulled alternately in a
+    solver-chosen pattern: neither may fail or end, each yields only its own split, unshuffled each is periodic."""
+    import sedpack.io.dataset_iteration as DI
+    import sedpack.io.itertools.itertools as IT
+    import sedpack.io.itertools.lazy_pool as LP
+    d, table, written = built
+    iface = cfg["iface"]
+    shuffled = bool(cfg["shuffled"])
+    iterscen.clear_module_caches(DI, IT, LP)
+    b = e.fresh_int("shuffle", 1, 2) if shuffled else 0
+    T = e.fresh_int("T", 1, 2)
+    splits = ("train", "test")
+    toks = {sp: iterscen.split_tokens(d, table, sp) for sp in splits}
+    gens, got = {}, {sp: [] for sp in splits}
+    steps = cfg["steps"]
+    what = f"{iface}/{cfg['layout']} shuffled={shuffled}: two live repeating streams (train, test)"
+    try:
+        for sp in splits:
+            gens[sp] = iterscen.stream(e, d, table, iface, split=sp, shuffle=b, T=T, repeat=True)
+        order = []
+        for i in range(steps):
+            sp = splits[0] if i == 0 else splits[1] if i == 1 else splits[e.choice(f"pull{i}", 2)]
+            order.append(sp)
+            try:
+                got[sp].append(next(gens[sp]))
+            except StopIteration:
+                e.fail(f"{what}: the {sp} stream ended after {len(got[sp])} elements (pull order {order})", dict(kind=f"{iface}-two-streams-one-ends"))
+            except CexFound:
+                raise
+            except Exception as exc:  # noqa: BLE001
+                e.fail(f"{what}: the {sp} stream raised {type(exc).__name__}: {str(exc)[:90]} (pull order {order})",
+                       dict(kind=f"{iface}-two-streams-raised-{type(exc).__name__}"))
+    finally:
+        for sp in reversed(splits):
+            if sp in gens:
+                try:
+                    gens[sp].close()
+                except Exception:  # noqa: BLE001
+                    pass
+    for sp in splits:
+        foreign = [t for t in got[sp] if t not in toks[sp]]
+        e.prove(not foreign, f"{what}: the {sp} stream yielded {foreign}, which are not examples of {sp}", dict(kind=f"{iface}-two-streams-foreign"))
+        if not shuffled:
+            n = len(toks[sp])
+            e.prove(got[sp] == [toks[sp][i % n] for i in range(len(got[sp]))],
+                    f"{what}: the {sp} stream yielded {got[sp]}, not its one-pass sequence {toks[sp]} repeated", dict(kind=f"{iface}-two-streams-not-periodic"))
+    return dict(iface=iface, two=True, got={k: v[:6] for k, v in got.items()})
 
 
 def tf_pipeline_problems():
@@ -113,11 +194,20 @@ def _cell(cell):
     common.import_sedpack()
     with common.scratch_dir("vt19_") as tmp:
         built = iterscen.build(tmp, cell["layout"])
+        if cell.get("two"):
+            return explore(lambda e: two_streams(e, cell, built))
         return explore(lambda e: scenario(e, cell, built))
 
 
 def cells(tier):
     out = []
+    for iface in IFACES:
+        for shuffled in (0, 1):
+            if shuffled and iface == "tfdataset":
+                continue
+            out.append(dict(two=True, iface=iface, layout="three-splits", shuffled=shuffled, epochs=1,
+                            steps=(4 if shuffled and iface in ("concurrent", "async") else 6) if tier == "quick" else
+                                  (5 if shuffled and iface in ("concurrent", "async") else 8)))
     for iface in IFACES:
         for layout in (["two-shards", "singles", "short-last"] + (["nested", "four-shards"] if tier == "thorough" else [])):
             for shuffled in (0, 1):
@@ -147,6 +237,8 @@ def run(tier, seed):
         iface, _, layout = head.partition("/")
         shuffled = int("shuffled=True" in c["msg"])
         cfg = dict(iface=iface, layout=layout or "two-shards", shuffled=shuffled, epochs=3)
+        if "two live repeating streams" in c["msg"]:
+            cfg.update(two=True, steps=1 + max([int(k[4:]) for k in c["model"] if k.startswith("pull")] or [1]))
         viols.append(Violation(sig, f"{c['msg']} (model {c['model']})", dict(model=c["model"], cfg=cfg)))
     tfp = tf_pipeline_problems()
     if tfp:
@@ -159,6 +251,7 @@ def run(tier, seed):
                     "backed interface delivers a complete permutation per epoch and creates/releases one native iterator per epoch.",
         functions=FUNCS,
         bounds=dict(layouts=sorted({c["layout"] for c in cs}), prefix="<= 3 epochs + 1 (unshuffled, rust), <= 1 epoch + 1 (shuffled others)",
+                    two_streams="train and test streams of one handle alive together, 4..8 pulls in every alternation pattern",
                     T="1..S+1", shuffle="0 or 1..2"),
         stats=st.as_dict(), samples=st.samples,
         assumptions=["LazyPool / executor / RustIter contracts as in C02", "tf.data repeat() semantics (recorded, not executed)"],
@@ -203,8 +296,40 @@ def replay(case):
             return True, "real TensorFlow run: " + str(p[:2])
         p = tf_pipeline_problems()
         return bool(p), "recorded pipeline only (the real TF run did not show it): " + str(p)
+    if case["cfg"].get("two"):
+        cfg = case["cfg"]
+        try:
+            with common.scratch_dir("vt19_") as tmp:
+                two_streams(ConcreteEngine(case["model"]), cfg, iterscen.build(tmp, cfg["layout"]))
+        except CexFound as c:
+            return True, f"reproduced with concrete values {case['model']}: {c.msg}; {real_two_streams(cfg)}"
+        return False, "not reproduced"
     try:
         scenario(ConcreteEngine(case["model"]), case["cfg"])
     except CexFound as c:
         return True, f"reproduced with concrete values {case['model']}: {c.msg}"
     return False, "not reproduced"
+
+
+def real_two_streams(cfg):
+    """The same situation with the real decoders / thread pools (no stubs): two repeating streams pulled alternately."""
+    import numpy as np
+    try:
+        with common.scratch_dir("vt19r_") as tmp:
+            d, table, written = iterscen.build(tmp, cfg["layout"])
+            kw = dict(repeat=True, shuffle=2 if cfg["shuffled"] else 0)
+            mk = {"numpy": lambda sp: iter(d.as_numpy_iterator(split=sp, **kw)),
+                  "concurrent": lambda sp: iter(d.as_numpy_iterator_concurrent(split=sp, file_parallelism=2, **kw)),
+                  "rust": lambda sp: iter(d.as_numpy_iterator_rust(split=sp, file_parallelism=2, **kw))}.get(cfg["iface"])
+            if mk is None:
+                return "real run: not available for this interface"
+            a, b = mk("train"), mk("test")
+            own = {sp: {int(x["a"][0]) for x in d.as_numpy_iterator(split=sp, repeat=False, shuffle=0)} for sp in ("train", "test")}
+            for i in range(12):
+                for sp, it in (("train", a), ("test", b)):
+                    v = int(np.asarray(next(it)["a"]).reshape(-1)[0])
+                    if v not in own[sp]:
+                        return f"real run: the {sp} stream yielded example {v} of the other split"
+        return "real run with real threads: both streams stayed alive"
+    except Exception as exc:  # noqa: BLE001
+        return f"real run with real decoders and thread pools also fails: {type(exc).__name__}: {str(exc)[:100]}"
